@@ -47,8 +47,14 @@ def gen_h2_spec(r: random.Random, flavor: str) -> dict:
     kinds = []
     for _ in range(n_act):
         when = [r.choice(["head", "end"]), r.randrange(n)]
-        do = r.choice(["rst", "settings-up", "settings-down", "settings-below", "ping"])
+        do = r.choice(["rst", "settings-up", "settings-down", "settings-below", "ping", "settings-down-twice"])
         kinds.append(do)
+        if do == "settings-down-twice":
+            # two decreases in a row: the second arrives while slots withdrawn by the first are still in use
+            first = r.choice([3, 4, 5])
+            actions.append({"when": when, "do": "settings", "settings": {"3": first}})
+            actions.append({"when": when, "do": "settings", "settings": {"3": r.choice([1, 2])}})
+            continue
         if do == "rst":
             actions.append({"when": when, "do": "rst", "code": r.choice([8, 2, 7])})
         elif do == "ping":
@@ -90,8 +96,8 @@ def gen_h2_spec(r: random.Random, flavor: str) -> dict:
     if "hold" in script:
         # hold needs that many requests to be open at once: never more than the client may open (it stays at one
         # stream when the server advertises no MAX_CONCURRENT_STREAMS at all) or than there are callers
-        script["hold"] = max(1, min(script["hold"], n, mcs or 1, 1 if "settings-below" in kinds else 100))
-        if r.random() < 0.5 or "settings-down" in kinds or "settings-below" in kinds:
+        script["hold"] = max(1, min(script["hold"], n, mcs or 1, 1 if ("settings-below" in kinds or "settings-down-twice" in kinds) else 100))
+        if r.random() < 0.5 or "settings-down" in kinds or "settings-below" in kinds or "settings-down-twice" in kinds:
             script["hold"] = 1
     return spec
 
